@@ -43,7 +43,17 @@ def gen(rng, count, tier):
             calls.append({'kind': 'apply_batch', 'jobs': [{'id': i, 'args': [i]} for i in range(rng.choice([1, 4, 9]))],
                           'join_first': rng.random() < 0.5})
         calls.append({'kind': rng.choice(['stop_and_join', 'terminate', 'stop_and_join'])})
-        scens.append({'id': f't{k}', 'pool': pool, 'calls': calls, 'budget': 60, 'env': env})
+        sc = {'id': f't{k}', 'pool': pool, 'calls': calls, 'budget': 60, 'env': env}
+        if k % 10 == 7 and sm != 'threading':
+            # a FAILING call that has to terminate too: many large task arguments are queued (more than the pipes hold)
+            # when task 0 raises; terminate() must empty the queues and return
+            nq = rng.choice([24, 40])
+            sc = {'id': f't{k}', 'pool': {'n_jobs': 2, 'start_method': sm}, 'budget': 60, 'env': {},
+                  'behaviour': {'task': [{'at': 5000, 'do': 'raise', 'exc': 'ValueError'}]},
+                  'calls': [{'kind': rng.choice(['map', 'map_unordered', 'imap_unordered']), 'n': nq, 'input': 'list', 'elem': 'bigtuple',
+                             'arg_bytes': rng.choice([200000, 1000000]), 'params': {'chunk_size': 1, 'max_tasks_active': nq}, 'base': 5000,
+                             'expect_exc': 'ValueError'}]}
+        scens.append(sc)
     return scens
 
 
@@ -54,6 +64,11 @@ def analyse(recs):
             hangs.append(rec)
             continue
         for c, out in zip(rec['scenario']['calls'], rec['result']['calls']):
+            if c.get('expect_exc'):
+                if out.get('outcome') != 'exc' or out['exc']['type'] != c['expect_exc']:
+                    bad.append((rec, f"failing call with large queued arguments ended as {out.get('outcome')} {out.get('exc', {}).get('type')}"))
+                    break
+                continue
             if out.get('outcome') != 'ok':
                 bad.append((rec, f"call {c['kind']} raised {out['exc']['type']}: {out['exc']['args'][:200]}"))
                 break
@@ -90,7 +105,7 @@ def run(ctx):
     for rec in recs:
         sc = rec['scenario']
         if rec['status'] == 'done' and not sc['pool'].get('keep_alive') and len([c for c in sc['calls'] if 'n' in c]) == 1 \
-                and not any(c['kind'] == 'apply_batch' for c in sc['calls']):
+                and not any(c['kind'] == 'apply_batch' or c.get('expect_exc') for c in sc['calls']):          # Core models the success path
             inst += conf.instance_cases(rec)
     broken = proof['failed_obligation']
     cbad = []
